@@ -1,7 +1,7 @@
 """C12 - no mutation while iterating; released when iteration ends (structural clauses)."""
 import re
 
-from kern import CallGraph, branch_edges, calls_by_name, callers, origins, outcome_edges, top_fn
+from kern import CallGraph, branch_edges, calls_by_name, callers, origins, outcome_edges, short_fn, top_fn
 
 DESCRIPTION = ("C12 clauses decided: R1 every structured loop exit (exhaustion, break, continue-exhaustion, return) "
                "reaches iter_stop (must-pass-through on the MIR of the 4 handlers and dominance in the return emitter); "
@@ -245,8 +245,49 @@ def r4_raii(ctx, F):
               "StarlarkIterator::drop no longer releases the container", fn=dr)
 
 
+def r6_views(ctx, F):
+    """no unlocked view of a list's content (a slice that takes no iteration lock) is live across a call that can
+    run user code: user code could mutate the list and invalidate the slice"""
+    cg = CallGraph(F, expand="value")
+    wcs = F.one(r"Evaluator::<'v, 'a, 'e>::with_call_stack$")
+    rev = cg.rev()
+    U = set()
+    st = [wcs.uid]
+    while st:
+        n = st.pop()
+        if n in U:
+            continue
+        U.add(n)
+        st.extend(rev.get(n, ()))
+    ctx.floor("C12.R6", "functions that can run user code", len(U), 178, inventory=True)
+    VIEW = re.compile(r"(list::value::ListData::<'v>::content|list::refs::ListRef::<'v>::(content|iter)|"
+                      r"ListLike<'v>>::content|array::Array::<'v>::content|ListLike::content)$")
+    n_views = 0
+    n_bad = 0
+    for f in F.fns.values():
+        if f.crate != "starlark":
+            continue
+        for v in f.calls:
+            if v.bb in f.cleanup or not VIEW.search(v.name):
+                continue
+            n_views += 1
+            after = f.after(v.bb)
+            us = [c for c in f.calls if c.bb in after and not c.indirect and c.callee_uid() in U]
+            if us:
+                n_bad += 1
+                ctx.bad("C12.R6", "view-across-callback:%s" % short_fn(top_fn(F, f).qpath),
+                        "`%s` takes an unlocked view of a list's content (`%s`) and afterwards calls `%s`, which can "
+                        "run user code: the callback may mutate the list while the view is in use (iterate through "
+                        "Value::iterate, which locks the list, or copy the elements first)"
+                        % (short_fn(top_fn(F, f).qpath), short_fn(v.name), short_fn(us[0].name)), fn=f, line=v.line)
+    ctx.floor("C12.R6", "unlocked list content views", n_views, 31, inventory=True)
+    if n_bad == 0:
+        ctx.ok("C12.R6", "no-view-across-callback", "%d unlocked list views inspected, none live across a user callback" % n_views)
+
+
 def run(ctx):
     F = ctx.facts("core")
+    r6_views(ctx, F)
     r1_exits(ctx, F)
     r2_error_exit(ctx, F)
     r3_siblings(ctx, F)
